@@ -90,7 +90,8 @@ TSTrl == Is("STrl") /\ Timed(STrl(E.c, MdF(E.md), E.k = "nil"))
 
 TFault == Is("Fault") /\ Timed(Fault(E.k))
 TUnfault == Is("Unfault") /\ Timed(Unfault(E.k))
-TWFail == Is("WFail") /\ Timed(Fault(IF E.k = "SW" THEN "swfail" ELSE "cwfail"))
+TWFail == Is("WFail") /\ IF E.k # "SW" /\ E.x = "rst" THEN Timed(WFailRst(E.msg))
+                                   ELSE Timed(Fault(IF E.k = "SW" THEN "swfail" ELSE "cwfail"))
 TServeRet == Is("ServeRet") /\ Timed(ServeRet)
 
 THk == /\ Is("Hk")
